@@ -66,83 +66,156 @@ ASSUMPTIONS = ["single host task; task-group children are not modelled",
                "busy-loop compression rule K"]
 
 TICK = 2.0 ** -3
+FUEL = 6000
+SEARCH_BUDGET_AFTER_KNOWN = 80000   # runner: how far to look for a failure that is not a known finding
+MAX_LOOP_STEPS = 3000
 
 
-def params():
-    """Gen/ParamsC13.v: does CancelScope.__exit__ take back the cancel requests no CancelledError accounted for
-    (repair of finding C13-F1)?  Fail closed: any loop in __exit__ other than exactly
-        while self.__host_task_cancel_calls: self.__host_task_cancel_calls -= 1; host_task.uncancel()
-    directly inside `if self.__cancel_called:` is rejected."""
+PARAMS_INFO = {}     # how the two code-state flags were obtained on this run (goes into the evidence through extra())
+
+
+def _class_methods(tree, cls_name):
+    for cls in tree.body:
+        if isinstance(cls, __import__("ast").ClassDef) and cls.name == cls_name:
+            return {it.name: it for it in cls.body if isinstance(it, __import__("ast").FunctionDef)}
+    return {}
+
+
+def _called_private_helpers(fn, methods):
+    """methods of the same class called as self.__x(...) / cls.__x(...) from fn (one level)."""
+    import ast
+    out = []
+    for n in ast.walk(fn):
+        if (isinstance(n, ast.Call) and isinstance(n.func, ast.Attribute) and isinstance(n.func.value, ast.Name)
+                and n.func.value.id in ("self", "cls") and n.func.attr in methods and n.func.attr != fn.name):
+            out.append(methods[n.func.attr])
+    return out
+
+
+def _is_takeback_loop(loop):
+    """while <...__host_task_cancel_calls...>: ...; <x>.uncancel() as a bare statement (result unused)."""
+    import ast
+    if not isinstance(loop, ast.While):
+        return False
+    mentions = any(isinstance(n, ast.Attribute) and n.attr == "__host_task_cancel_calls" for n in ast.walk(loop.test))
+    bare = any(isinstance(st, ast.Expr) and isinstance(st.value, ast.Call) and isinstance(st.value.func, ast.Attribute)
+               and st.value.func.attr == "uncancel" for st in loop.body)
+    return mentions and bare
+
+
+def _ast_flags():
+    """Tolerant, non-guessing read of the two shapes: each flag is True / False when the shape is recognised modulo
+    renaming of locals, extraction of private helpers (one level) and loop/return style; None when it is not."""
     import ast
     import os
 
     from common import runner
 
-    path = os.path.join(runner.REPO, _T)
     try:
-        tree = ast.parse(open(path).read())
+        tree = ast.parse(open(os.path.join(runner.REPO, _T)).read())
+    except Exception:
+        return None, None
+    methods = _class_methods(tree, "CancelScope")
+    ex = methods.get("__exit__")
+    flag1 = flag2 = None
+    if ex is not None:
+        # statements of __exit__ with the bodies of the private helpers it calls spliced in (one level)
+        scopes = [(ex, False)] + [(h, True) for h in _called_private_helpers(ex, methods) if h.name != "__uncancel_task"]
+        found, doubtful = 0, False
+        for fn, is_helper in scopes:
+            for node in ast.walk(fn):
+                if _is_takeback_loop(node):
+                    found += 1
+                    # a loop that sits in an else-branch / under a test on the exception is conditional on how the
+                    # scope exits: not one of the two shapes the model knows
+                    for parent in ast.walk(fn):
+                        if isinstance(parent, ast.If) and node in parent.orelse:
+                            doubtful = True
+                        if isinstance(parent, (ast.For, ast.While)) and node in getattr(parent, "orelse", []):
+                            doubtful = True
+                        if isinstance(parent, ast.If) and node in parent.body and not (
+                                isinstance(parent.test, ast.Attribute) and parent.test.attr == "__cancel_called"):
+                            doubtful = True
+        if found == 1 and not doubtful:
+            flag1 = True
+        elif found == 0:
+            flag1 = False
+    ut = methods.get("__uncancel_task")
+    if ut is not None and ut.body and isinstance(ut.body[-1], ast.Return):
+        rv = ut.body[-1].value
+        if isinstance(rv, ast.Constant) and rv.value is False:
+            flag2 = False
+        elif (isinstance(rv, ast.Compare) and len(rv.ops) == 1 and isinstance(rv.ops[0], ast.In)
+              and isinstance(rv.left, ast.Call) and isinstance(rv.left.func, ast.Attribute)
+              and rv.left.func.attr == "__cancellation_id"
+              and isinstance(rv.comparators[0], ast.Attribute) and rv.comparators[0].attr == "args"):
+            flag2 = True
+    return flag1, flag2
+
+
+def _probe_flags():
+    """Behavioural extraction: scripted probes on the REAL CancelScope on the deterministic loop.
+    flag 1 "a cancelled scope takes back its pending task.cancel() requests when it exits without a CancelledError":
+       (a) ignore_cancellation( move_on_after(1){ sleep 2 } ): the scope exits NORMALLY after its requests were swallowed;
+       (b) move_on_after(2){ timeout(1){ block 3; sleep 1 } }: the outer scope exits with a TimeoutError;
+       task.cancelling() right after that exit: 0 in both -> True, > 0 in both -> False, anything else -> not a shape the
+       model knows.
+    flag 2 "__uncancel_task falls back on the CancelledError message": move_on_after(1){ sleep 3 }; sleep 1 with the
+       controller's task.cancel() at the front of loop iteration 3 (one CancelledError carrying the scope's id stands for
+       both requests, cancelling() test fails): the scope swallows -> True, lets it propagate -> False."""
+    a = run_impl([[7, 1, [6, 2, 0, 0, [1], [2, 3, 2]]], [], [], 2, FUEL])
+    b = run_impl([[6, 1, 0, 0, [2], [6, 2, 1, 0, [1], [1, [5, 3], [2, 3, 1]]]], [], [], 1, FUEL])
+    ea = [e for e in a[0] if e[0] == 2 and e[1] == 2]
+    eb = [e for e in b[0] if e[0] == 2 and e[1] == 1]
+    if len(ea) != 1 or len(eb) != 1 or not ea[0][3] or not eb[0][3]:
+        raise ValueError(f"take-back probes did not reach a cancelled scope's exit: {a} {b}")
+    ca, cb = ea[0][5], eb[0][5]
+    if ca == 0 and cb == 0:
+        flag1 = True
+    elif ca > 0 and cb > 0:
+        flag1 = False
+    else:
+        raise ValueError(f"take-back depends on how the scope exits (normal exit leaves {ca}, TimeoutError exit leaves {cb})")
+    c = run_impl([[1, [6, 1, 0, 0, [1], [2, 2, 3]], [2, 3, 1]], [], [[3, 1]], 2, FUEL])
+    ec = [e for e in c[0] if e[0] == 2 and e[1] == 1]
+    if len(ec) != 1 or not ec[0][3] or not any(e[0] == 4 for e in c[0]):
+        raise ValueError(f"fallback probe did not reach the race: {c}")
+    flag2 = bool(ec[0][6])
+    return flag1, flag2
+
+
+def params():
+    """Gen/ParamsC13.v: the two code-state flags of the model.
+    Decided by BEHAVIOUR (scripted probes on the real CancelScope, _probe_flags); the AST is read as well, tolerantly
+    (_ast_flags): where it recognises the shape it must agree with the probe (disagreement = fail closed), where it
+    does not the flag is marked "(behavioural)".  A behaviour that is neither shape fails closed."""
+    from common import runner
+
+    try:
+        p1, p2 = _probe_flags()
     except Exception as exc:
-        raise runner.TranslateError(f"cannot parse tasks.py: {exc}")
-    fn = None
-    for cls in tree.body:
-        if isinstance(cls, ast.ClassDef) and cls.name == "CancelScope":
-            for it in cls.body:
-                if isinstance(it, ast.FunctionDef) and it.name == "__exit__":
-                    fn = it
-    if fn is None:
-        raise runner.TranslateError("CancelScope.__exit__ not found")
-    loops = [n for n in ast.walk(fn) if isinstance(n, (ast.While, ast.For, ast.AsyncFor))]
-    if not loops:
-        flag = False
-    else:
-        ok = False
-        if len(loops) == 1 and isinstance(loops[0], ast.While):
-            wl = loops[0]
-            holder = [n for n in fn.body if isinstance(n, ast.If) and wl in n.body]
-            t = wl.test
-            if (holder and isinstance(holder[0].test, ast.Attribute) and holder[0].test.attr == "__cancel_called"
-                    and isinstance(t, ast.Attribute) and t.attr == "__host_task_cancel_calls" and not wl.orelse
-                    and len(wl.body) == 2
-                    and isinstance(wl.body[0], ast.AugAssign) and isinstance(wl.body[0].op, ast.Sub)
-                    and isinstance(wl.body[0].target, ast.Attribute) and wl.body[0].target.attr == "__host_task_cancel_calls"
-                    and isinstance(wl.body[0].value, ast.Constant) and wl.body[0].value.value == 1
-                    and isinstance(wl.body[1], ast.Expr) and isinstance(wl.body[1].value, ast.Call)
-                    and isinstance(wl.body[1].value.func, ast.Attribute) and wl.body[1].value.func.attr == "uncancel"
-                    and isinstance(wl.body[1].value.func.value, ast.Name) and wl.body[1].value.func.value.id == "host_task"
-                    and not wl.body[1].value.args):
-                # it must come after the cancelled_caught computation and not be nested deeper
-                idx = holder[0].body.index(wl)
-                ok = idx >= 1
-        if not ok:
-            raise runner.TranslateError("unrecognised loop in CancelScope.__exit__")
-        flag = True
-    # second flag: does __uncancel_task fall back on the CancelledError message when the cancelling() count test fails?
-    ut = None
-    for cls in tree.body:
-        if isinstance(cls, ast.ClassDef) and cls.name == "CancelScope":
-            for it in cls.body:
-                if isinstance(it, ast.FunctionDef) and it.name == "__uncancel_task":
-                    ut = it
-    if ut is None or not ut.body or not isinstance(ut.body[-1], ast.Return):
-        raise runner.TranslateError("CancelScope.__uncancel_task: no final return")
-    rv = ut.body[-1].value
-    if isinstance(rv, ast.Constant) and rv.value is False:
-        fallback = False
-    elif (isinstance(rv, ast.Compare) and len(rv.ops) == 1 and isinstance(rv.ops[0], ast.In)
-          and isinstance(rv.left, ast.Call) and isinstance(rv.left.func, ast.Attribute)
-          and rv.left.func.attr == "__cancellation_id" and not rv.left.args
-          and isinstance(rv.comparators[0], ast.Attribute) and rv.comparators[0].attr == "args"
-          and isinstance(rv.comparators[0].value, ast.Name) and rv.comparators[0].value.id == "exc"):
-        fallback = True
-    else:
-        raise runner.TranslateError("CancelScope.__uncancel_task: unrecognised final return")
-    return ("(* does CancelScope.__exit__ take back leftover cancel requests (repair of finding C13-F1)? *)\n"
-            f"Definition exit_takes_back_leftover : bool := {'true' if flag else 'false'}.\n"
-            "(* does __uncancel_task fall back on the CancelledError message (finding C13-F2 is present iff true)? *)\n"
-            f"Definition uncancel_message_fallback : bool := {'true' if fallback else 'false'}.\n")
-FUEL = 6000
-SEARCH_BUDGET_AFTER_KNOWN = 80000   # runner: how far to look for a failure that is not a known finding
-MAX_LOOP_STEPS = 3000
+        PARAMS_INFO.clear()
+        PARAMS_INFO.update(error=str(exc))
+        raise runner.TranslateError(f"behavioural probes: {exc}")
+    a1, a2 = _ast_flags()
+    for name, pv, av in (("exit_takes_back_leftover", p1, a1), ("uncancel_message_fallback", p2, a2)):
+        if av is not None and av != pv:
+            PARAMS_INFO.clear()
+            PARAMS_INFO.update(error=f"{name}: AST says {av}, behaviour says {pv}")
+            raise runner.TranslateError(f"{name}: the source reads as {av} but the real CancelScope behaves as {pv}")
+    how1 = "AST, confirmed by probe" if a1 is not None else "behavioural"
+    how2 = "AST, confirmed by probe" if a2 is not None else "behavioural"
+    PARAMS_INFO.clear()
+    PARAMS_INFO.update(exit_takes_back_leftover=dict(value=p1, source=how1),
+                       uncancel_message_fallback=dict(value=p2, source=how2))
+    return (f"(* does CancelScope.__exit__ take back leftover cancel requests (repair of finding C13-F1)?  ({how1}) *)\n"
+            f"Definition exit_takes_back_leftover : bool := {'true' if p1 else 'false'}.\n"
+            f"(* does __uncancel_task fall back on the CancelledError message (finding C13-F2 present iff true)?  ({how2}) *)\n"
+            f"Definition uncancel_message_fallback : bool := {'true' if p2 else 'false'}.\n")
+
+
+def extra(ctx):
+    return dict(code_state_flags=dict(PARAMS_INFO))
 
 
 # ------------------------------------------------------------------ running the real code
